@@ -26,7 +26,20 @@ End Kids.
    the plain serialisation, nothing added or removed - after one extra line feed when the content itself
    begins with one (a parser drops the first line feed after these start tags) *)
 Definition is_verbatim (t : bytes) : bool := bytes_eqb t (bs "pre") || bytes_eqb t (bs "textarea").
-Definition starts_nl (k : list node) : bool := match k with Text (c :: _) :: _ => beq c x0a | _ => false end.
+(* what a parser does to the first text after a pre / textarea start tag (x/net/html parse.go inBodyIM, textIM):
+   a carriage return is dropped, then a line feed *)
+Definition parser_drop (d : bytes) : bytes :=
+  let d1 := match d with c :: r => if beq c x0d then r else d | [] => [] end in
+  match d1 with c :: r => if beq c x0a then r else d1 | [] => [] end.
+Definition starts_break (s : bytes) : bool := match s with c :: _ => beq c x0a || beq c x0d | [] => false end.
+Definition starts_nl (k : list node) : bool := match k with Text s :: _ => starts_break s | _ => false end.
+(* the compensation is exact: whatever the content, the parser's drop removes the added line feed and nothing else *)
+Lemma first_break_kept s : parser_drop ((if starts_break s then nl else []) ++ s) = s.
+Proof.
+  destruct s as [|c s]; [reflexivity|]. unfold starts_break.
+  destruct (beq c x0a) eqn:Ea; [reflexivity|]. destruct (beq c x0d) eqn:Ed; [reflexivity|].
+  cbn [orb app parser_drop]. unfold parser_drop. rewrite Ed, Ea. reflexivity.
+Qed.
 Fixpoint pretty (fuel : nat) (ind : nat) (n : node) : bytes :=
   match fuel with O => [] | S f =>
   match n with
